@@ -594,23 +594,13 @@ fn convert_class_names_and_rpx_in_block(input: &mut StepParser, ss: &mut StyleSh
                 }
                 has_whitespace = false;
                 match &*next {
+                    // (functions such as `:not(:is(.a .b))` contain selectors again)
                     Token::CurlyBracketBlock
                     | Token::SquareBracketBlock
-                    | Token::ParenthesisBlock => {
+                    | Token::ParenthesisBlock
+                    | Token::Function(_) => {
                         let close = ss.append_nested_block(next, input);
                         convert_class_names_and_rpx_in_block(input, ss);
-                        ss.append_nested_block_close(close, input);
-                        in_class = false;
-                    }
-                    Token::Function(func) => {
-                        let func: &str = func;
-                        let config = if func == "calc" {
-                            Some(ConvertOptions { in_calc: true })
-                        } else {
-                            None
-                        };
-                        let close = ss.append_nested_block(next.clone(), input);
-                        convert_rpx_in_block(input, ss, config);
                         ss.append_nested_block_close(close, input);
                         in_class = false;
                     }
